@@ -889,6 +889,8 @@ def run(tier):
         # sinks end to end: the XML (byte for byte) and HTML of the real x12n_document against Model/DocSinks.lean
         from . import doc as docmod, docsinks
         docsinks.attach(res, [t for _, t in docmod.small_corpus(seed * 3 + 8, 60 if tier == 'thorough' else 24)], 'c08-sample')
+        from . import c08text
+        c08text.attach(res, tier)
     return res.finish(trusted=common.TRUSTED_COMMON + [
         'modelled: XMLWriter.push/elem/pop/_escape_*/_indent, x12xml._path_list/_get_path_match_idx, x12xml_simple.__init__/seg/__del__, '
         'xmlx12_simple.convert/get_segment, Segment.set/get/format; not modelled: X12Writer (trailers are regenerated by it; oracle only), '
